@@ -330,10 +330,11 @@ func main() {
 				if got := a.geom().Overlaps(b.geom()); got != share {
 					r.Violation(fmt.Sprintf("box|Overlaps|got=%v", got), map[string]interface{}{"a": a, "b": b})
 				}
-				// box-box intersection: common rectangle, nil iff no common area
-				if !a.empty() && !b.empty() {
+				// box-box intersection: common rectangle, nil iff no common area (an empty
+				// box shares no area with anything)
+				{
 					ix0, iy0, ix1, iy1 := math.Max(a.X0, b.X0), math.Max(a.Y0, b.Y0), math.Min(a.X1, b.X1), math.Min(a.Y1, b.Y1)
-					area := ix1 > ix0 && iy1 > iy0
+					area := ix1 > ix0 && iy1 > iy0 && !a.empty() && !b.empty()
 					if area {
 						atomic.AddInt64(&overlapping, 1)
 					}
@@ -344,6 +345,9 @@ func main() {
 					}
 					isNil := res == nil
 					if rb, ok := res.(*geom.Bounds); ok && rb == nil {
+						// a nil *Bounds wrapped in the interface: "res == nil" is false for the
+						// caller and every method call on it panics
+						r.Violation("box|Intersection|typed-nil-pointer-instead-of-nil", map[string]interface{}{"a": a, "b": b, "got": fmt.Sprintf("%#v", res)})
 						isNil = true
 					}
 					if !area {
